@@ -12,8 +12,14 @@ var (
 	used  int64
 )
 
+// Hook, when set, is called on every tick (the controlled scheduler uses ticks as scheduling points).
+var Hook func()
+
 // Tick consumes one unit.
 func Tick() {
+	if Hook != nil {
+		Hook()
+	}
 	left--
 	if left < 0 && armed {
 		armed = false
